@@ -161,12 +161,13 @@ def generic_arg(text, k=0):
         return None
     from .parse import match_close
     j = match_close(text, i)
-    parts = split_top(text[i + 1:j])
+    parts = [q for q in split_top(text[i + 1:j]) if not q.strip().startswith("'")]
     return parts[k].strip() if k < len(parts) else None
 
 
 def install(w):
-    from . import models_core, models_coll, models_iter
+    from . import models_core, models_coll, models_iter, models_env
     models_core.install(w)
     models_coll.install(w)
     models_iter.install(w)
+    models_env.install(w)
